@@ -1,6 +1,6 @@
 """C19 - see DESIGN.md 5/C19 (Lifecycle.tla)."""
 from harness import core
-from checks import suite_lifecycle, suite_drolifecycle, suite_userdata
+from checks import suite_lifecycle, suite_drolifecycle, suite_userdata, suite_incremental
 
 
 def main(tier):
@@ -16,6 +16,7 @@ def main(tier):
     suite_drolifecycle.run(rep, tier, props=('C19',))
     # user arrays of every kind in every role; the same models formulated in fresh interpreters with different hash seeds
     suite_userdata.run(rep, tier, props=('C19',))
+    suite_incremental.run(rep, tier, props=('C19',))
     return rep.finish()
 
 
